@@ -1188,6 +1188,16 @@ VARIANTS += [
          edits=[dict(file='ipa-core/src/helpers/gateway/send.rs', find='        assert!(this.total_capacity.get() >= record_size * gateway_config.active.get());', replace='        debug_assert!(this.total_capacity.get() >= record_size * gateway_config.active.get());')]),
 ]
 
+VARIANTS += [
+    dict(prop="C19", name="http-shard-transport-counts-itself", cfg="N", expect=['COUNT-shards', 'peer_count:ShardHttpTransport'],
+         edits=[dict(file='ipa-core/src/net/transport.rs', find='        u32::from(self.shard_count).saturating_sub(1)', replace='        u32::from(self.shard_count)')]),
+    dict(prop="C19", name="http-shard-transport-counts-peers-by-iterating", cfg="N", benign=True,
+         edits=[dict(file='ipa-core/src/net/transport.rs', find='        u32::from(self.shard_count).saturating_sub(1)', replace='        u32::try_from(self.peers().count()).unwrap()')]),
+    dict(prop="C19", name="gateway-shard-count-without-self", cfg="N", expect=['COUNT-shards', 'shard_count:&Gateway'],
+         edits=[dict(file='ipa-core/src/helpers/gateway/mod.rs', find='        ShardIndex::from(self.transports.shard.peer_count() + 1)', replace='        ShardIndex::from(self.transports.shard.peer_count())')]),
+]
+VARIANTS += [dict(v, prop="C11", name=v["name"] + "@C11") for v in VARIANTS if v["name"] in ("http-shard-transport-counts-itself",)]
+
 # rules shared between properties: the same edit must be reported under the other property too
 VARIANTS += [dict(v, prop="C05", name=v["name"] + "@C05") for v in VARIANTS
              if v["name"] in ("h1-shuffle-empty-shard-leaves", "sharded-shuffle-empty-shard-leaves", "reshard-closes-channels-on-input-error", "reshard-closes-before-matching-none")]
